@@ -373,6 +373,8 @@ def r7_closure(cx):
                "visit iterates over all get_dependencies(parent)", construct="for %s in %s" % (U(lp.target), U(lp.iter)))
     tv = U(lp.target)
     body_calls = [c for c in walk_body(lp.body) if isinstance(c, ast.Call)]
+    vis_name = p[1] if len(p) > 1 else params(wd)[1]      # the visitor is a parameter of visit() or closed over from walk_dependencies
+    p = [p[0], vis_name]
     calls_visitor = any(call_name(c) == p[1] and len(c.args) >= 2 and U(c.args[0]) == tv and U(c.args[1]) == p[0] for c in body_calls)
     recurses = any(call_name(c) == visit.name and c.args and U(c.args[0]) == tv for c in body_calls)
     no_exit = not any(isinstance(x, (ast.Break, ast.Continue, ast.Return)) for x in walk_body(lp.body))
@@ -391,7 +393,8 @@ def r7_closure(cx):
     cx.require(ok, g, "the visitor records the edge parent -> child for every visited pair", construct="graph[parent].add(c)")
     # leaves get empty dependency sets (so that they take part in the ordering)
     txt = U(g)
-    cx.require("set()" in txt and ("graph.update" in txt or "setdefault" in txt), g,
+    empties = [a for a in walk_body(g.body) if isinstance(a, ast.Assign) and isinstance(a.targets[0], ast.Subscript) and U(a.value) == "set()" and enclosing(a, ast.For) is not None]
+    cx.require("set()" in txt and (".update(" in txt or "setdefault" in txt or bool(empties)), g,
                "components without dependencies are added to the graph with an empty dependency set", construct="graph.update(dict((item, set()) ...))")
 
 
